@@ -26,7 +26,7 @@ def main():
         text = (f"{len(proved)}/{len(clauses)} clauses of the property have a machine-checked Lean theorem"
                 + ("; all clauses proved for every input over the model, the model is tied to /repo on every run" if level == "proof" else
                    "; the remaining clauses are decided by model/implementation correspondence plus an independent oracle search, so the claim is translation validation, not proof")
-                + ". " + "; ".join(f"[{'thm ' + t.split('.')[-1] if t else 'no theorem yet'}] {c}" for c, t in clauses))
+                + ". " + "; ".join(f"[{'thm ' + ','.join(x.split('.')[-1] for x in ([t] if isinstance(t, str) else t)) if t else 'no theorem yet'}] {c}" for c, t in clauses))
         checks.append({
             "property_id": pid,
             "quick_cmd": f"./check {pid} --tier quick",
